@@ -38,7 +38,8 @@ def configs(ch):
                                           b"0123456789abcdefghij", bytes(rng.randrange(256) for _ in range(20))])
                     if pl and rng.randrange(3) == 0:
                         pw = rng.choice([b"\x00" + pw[1:], pw[:-1] + b"\x00", pw[:len(pw) // 2] + b"\x00" + pw[len(pw) // 2 + 1:]])
-                    out.append({"suite": su, "kg": kgv, "lookup": lookup,
+                    # "no KG" as callers produce it: nil, or a zero-length non-nil slice ([]byte(""), hex.DecodeString(""))
+                    out.append({"suite": su, "kg": kgv, "lookup": lookup, "kg_empty": (not kg) and k % 2 == 0,
                                 "priv": priv, "user": user, "pw": pw, "seed": rng.randrange(1 << 30),
                                 "guid": bytes(rng.randrange(256) for _ in range(16))})
     return out
@@ -54,7 +55,8 @@ def run(ch, build):
         bmc = conn.default_bmc(seed=c["seed"], suites=[[100, su[0], su[1], su[2]]], guid=c["guid"].hex(), kg=c["kg"].hex(),
                                users=[{"name": "other", "password": b"x".hex(), "maxpriv": 5},
                                       {"name": c["user"], "password": c["pw"].hex(), "maxpriv": 5}])
-        steps = [hs.open_step(user=c["user"], password=c["pw"], kg=c["kg"], priv=c["priv"], lookup=c["lookup"], suites=[su])]
+        steps = [dict(hs.open_step(user=c["user"], password=c["pw"], kg=c["kg"], priv=c["priv"], lookup=c["lookup"], suites=[su]),
+                      kg_empty=c["kg_empty"])]
         pool = [x for x in hist.command_pool(rng, True) if x["name"] not in ("setpriv", "chassiscontrol")]
         for _ in range(rng.randrange(1, 7)):
             steps.append({"op": "cmd", "conn": "session", "cmd": rng.choice(pool), "script": ["ok"]})
